@@ -106,7 +106,8 @@ func (g *Gen) texp(depth int, root bool) *Texp {
 	case k < 75:
 		return &Texp{K: "TMap2", F2: g.fn2(), E1: g.texp(depth-1, false), E2: g.texp(depth-1, false)}
 	case k < 82:
-		return &Texp{K: "TCut", Cut: g.cut(), E1: g.texp(depth-1, false)}
+		// history-dependent cutoffs are not functions of the inputs: kept out of templates
+		return &Texp{K: "TCut", Cut: []string{"CEq", "CNever", "CAlways"}[g.R.Intn(3)], E1: g.texp(depth-1, false)}
 	case k < 97:
 		n := g.R.Range(1, 3)
 		cs := make([]*Texp, n)
